@@ -9,6 +9,7 @@ import (
 	"sort"
 	"strings"
 
+	cosmos_proto "github.com/cosmos/cosmos-proto"
 	"google.golang.org/protobuf/proto"
 	"google.golang.org/protobuf/types/descriptorpb"
 )
@@ -48,6 +49,9 @@ type F struct {
 	KK     string `json:"kk"`   // map key kind
 	VK     string `json:"vk"`   // map value kind
 	VType  string `json:"vtype"`
+	// cosmos_proto custom options (C19: custom options survive into the registered descriptor)
+	Scalar  string `json:"scalar"`
+	Accepts string `json:"accepts"`
 }
 
 type EV struct {
@@ -59,6 +63,7 @@ type E struct {
 	Values []EV   `json:"values"`
 }
 type M struct {
+	Implements []string `json:"implements"`
 	Name   string   `json:"name"`
 	Fields []F      `json:"fields"`
 	Oneofs []string `json:"oneofs"` // declaration order
@@ -109,6 +114,9 @@ func (f *File) Canon() *File {
 			}
 			if ms[i].Fields == nil {
 				ms[i].Fields = []F{}
+			}
+			if ms[i].Implements == nil {
+				ms[i].Implements = []string{}
 			}
 			fix(ms[i].Nested)
 		}
@@ -245,7 +253,22 @@ func (m *M) toProto(scope string) *descriptorpb.DescriptorProto {
 				fp.OneofIndex = proto.Int32(idx)
 			}
 		}
+		if f.Scalar != "" || f.Accepts != "" {
+			if fp.Options == nil {
+				fp.Options = &descriptorpb.FieldOptions{}
+			}
+			if f.Scalar != "" {
+				proto.SetExtension(fp.Options, cosmos_proto.E_Scalar, f.Scalar)
+			}
+			if f.Accepts != "" {
+				proto.SetExtension(fp.Options, cosmos_proto.E_AcceptsInterface, f.Accepts)
+			}
+		}
 		p.Field = append(p.Field, fp)
+	}
+	if len(m.Implements) > 0 {
+		p.Options = &descriptorpb.MessageOptions{}
+		proto.SetExtension(p.Options, cosmos_proto.E_ImplementsInterface, m.Implements)
 	}
 	return p
 }
@@ -623,14 +646,23 @@ func Cross() []*File {
 	xa2 := &File{Name: "verif/xa/xa2.proto", Pkg: "verif.xa", GoPkg: "xa", Group: "x", Tags: []string{"cross"},
 		Deps: []string{"verif/xb/xb.proto"},
 		Msgs: []M{{Name: "Second", Fields: []F{one("leaf", 1, "message", ".verif.xb.Leaf"), one("note", 2, "string")}}}}
-	return []*File{xb, xa2, xa}
+	addr := one("addr", 1, "string")
+	addr.Scalar = "cosmos.AddressString"
+	acct := one("acct", 2, "message", ".google.protobuf.Any")
+	acct.Accepts = "verif.opt.Account"
+	amt := rep("amounts", 3, "string")
+	amt.Scalar = "cosmos.Int"
+	opt := &File{Name: "verif/opt/opt.proto", Pkg: "verif.opt", GoPkg: "opt", Group: "opt", Tags: []string{"options"},
+		Deps: []string{"cosmos_proto/cosmos.proto", "google/protobuf/any.proto"},
+		Msgs: []M{{Name: "WithOptions", Implements: []string{"verif.opt.Account", "verif.opt.Other"}, Fields: []F{addr, acct, amt}}}}
+	return []*File{xb, xa2, xa, opt}
 }
 
 // PluginUniverse is the file universe of spec/Plugin.tla: A (proto3), B (proto3, imports A, other
 // Go package), C (proto3, same Go package as A), D (proto2), E (proto3, unrelated).
 func PluginUniverse() map[string]*File {
 	cross := Cross()
-	a, b := cross[0], cross[2]
+	a, b := cross[0], cross[2] // xb, xa
 	c := &File{Name: "verif/xb/xb2.proto", Pkg: "verif.xb", GoPkg: "xb", Group: "x", Deps: []string{"verif/xb/xb.proto"},
 		Msgs: []M{{Name: "Branch", Fields: []F{one("leaf", 1, "message", ".verif.xb.Leaf"), rep("tags", 2, "string")}}}}
 	d := &File{Name: "verif/p2/p2.proto", Pkg: "verif.p2", GoPkg: "p2", Group: "p2", Syntax: "proto2",
